@@ -8,6 +8,16 @@ CHECKS = {
   text="Every program of the enumerated families is loaded into a fresh real interpreter and every query is run to exhaustion; the complete answer sequence (structurally captured, up to variable renaming), the terminal status, the error term and the output are compared with a textbook goal-stack/choice-point reference machine that shares no design with the promise/continuation VM. Exhaustive within the stated size bounds, smallest first.",
   note="Trusted: the reference machine ref/solve (self-checked against the ISO examples) and the harness printer; programs beyond the size bounds or outside the signature are not covered; cases on which the reference exceeds its step budget are compared on the answer prefix only.",
   design="DESIGN.md §3 C01"),
+ "C03": dict(
+  technique="bounded-exhaustive enumeration of control skeletons (all clause bodies up to a length bound over 28 item shapes incl. every opaque wrapper, x clause layouts x 13 calling contexts, plus a sweep of the recursion depth between call and cut) on the real interpreter; answer sequence and execution trace compared with an ISO reference machine",
+  text="Every skeleton is loaded into a fresh real interpreter and run in every calling context; generators write one character per clause tried, so the comparison with the reference machine (ISO cut barriers, call/N opaque) covers both the answers and exactly which alternatives were retried. A depth sweep puts every stack size 0..72 between the call and the cut. Exhaustive within the bounds.",
+  note="Trusted: ref/solve's cut semantics (self-checked against ISO 7.8.4 examples). Cut placements inside nested ;/,/-> are excluded as the property states.",
+  design="DESIGN.md §3 C03"),
+ "C04": dict(
+  technique="bounded-exhaustive enumeration of catch/throw skeletons (all clause bodies up to a length bound over 37 item shapes x 9 contexts, plus the body as query, directive and initialization goal) on the real interpreter; answers, recovery trace and final error compared with an ISO reference machine",
+  text="Every skeleton combines generators, cuts, user balls sharing variables (incl. list balls), built-in errors and catch/3 goals that exit deterministically, with choice points, or are re-entered by backtracking; each is run uncaught, caught outside, inside findall, and with a throw after the catch has exited; the reference keeps catch frames as choice points with a trailed active flag. Exhaustive within the bounds.",
+  note="Trusted: ref/solve's catch/throw semantics (self-checked against ISO 7.8.9 examples); only the formal part of error(Formal, Context) is compared.",
+  design="DESIGN.md §3 C04"),
  "C07": dict(
   technique="bounded-exhaustive enumeration of the complete boundary-value grid (all functors x all operand pairs, all depth-2 trees over a reduced grid) on the real evaluator, each case compared with a math/big + IEEE-754 reference model",
   text="Every evaluable functor of the statement is run on the complete cross product of an integer and a float boundary grid (all int/float combinations), all shift counts, all six comparisons, and all depth-2 trees over a reduced grid; each result is compared with an exact reference (math/big integers, IEEE-754 doubles). Exhaustive within the grid: a wrong boundary test, a float detour or a sign slip in any of the per-type helpers shows up as a concrete expression.",
